@@ -98,7 +98,8 @@ def plan(tier, seed):
         shards.append({'kind': 'soup', 'n': 100 if q else 500, 'part': i})
     for i in range(4 if q else 16):
         shards.append({'kind': 'interact', 'n': 60 if q else 800, 'part': i})
-    shards.append({'kind': 'default', 'n': 150 if q else 3000})
+    for i in range(1 if q else 8):
+        shards.append({'kind': 'default', 'n': 150 if q else 400, 'part': i})
     shards.append({'kind': 'cli', 'n': 12 if q else 120})
     return shards
 
@@ -588,7 +589,7 @@ def _default(spec, rng, res):
         os.makedirs(work)
         try:
             p = subprocess.run([sys.executable, '-B', drv], cwd=work, stdin=subprocess.DEVNULL, stdout=subprocess.PIPE,
-                               stderr=subprocess.STDOUT, timeout=600)
+                               stderr=subprocess.STDOUT, timeout=1800)
         except subprocess.TimeoutExpired:
             res.inconclusive('default-configuration driver timed out')
             return
